@@ -19,8 +19,8 @@ from ..runner import Collector, Outcome, hyp_run, hyp_shrink
 ID = "C20"
 LEVEL = "exploration"
 RULE = (
-    "case = generated configuration file with 1..4 servers: command = a per-case copy of a witness MCP server script (absolute path, possibly in a directory whose name has a space / non-ASCII), "
-    "args with spaces, quotes, backslashes, Unicode, empty strings; env absent / {} / values with spaces, '=', Unicode; the host's own HOME/TERM/USER/LOGNAME/SHELL set, unset or function-like differently before each entry point; timeout absent / int / float / numeric string; extra keys at every level; "
+    "case = generated configuration file with 1..4 servers: command = a per-case copy of a witness MCP server script (absolute path, possibly in a directory whose name has a space / non-ASCII; or a bare name found on the configured PATH while a same-named decoy sits on the host's PATH), "
+    "args with spaces, quotes, backslashes, Unicode, empty strings, URL-/comment-like text (//, /* */, #); env absent / {} / values with spaces, '=', Unicode; the host's own HOME/TERM/USER/LOGNAME/SHELL set, unset or function-like differently before each entry point; timeout absent / int / float / numeric string; extra keys at every level; "
     "run through three entry points: load_config -> stdio_client -> send_initialize; __main__.test_server; run_command with a recording command; plus malformed classes (missing file, invalid JSON: "
     "truncated / trailing comma / empty, unknown server name); oracle: the witness child records argv, environ and every received line: argv == configured args, environment == what a control launch "
     "with the configured environment, or with the documented default computed independently of the library from the host's variables at that moment, shows, it saw initialize then notifications/initialized, timeout is float or None, test_server is True, run_command hands the command one "
@@ -153,6 +153,9 @@ def check(case: Dict[str, Any]) -> Outcome:
         os.makedirs(sub, exist_ok=True)
         cfg: Dict[str, Any] = {"mcpServers": {}}
         scripts: Dict[str, str] = {}
+        decoys: Dict[str, str] = {}
+        decoy_dir = os.path.join(root, "host-path")
+        servers = list(servers)
         for i, s in enumerate(servers):
             script = os.path.join(sub, f"witness_{i}.py")
             with open(script, "w") as fh:
@@ -160,6 +163,23 @@ def check(case: Dict[str, Any]) -> Outcome:
             os.chmod(script, 0o755)
             scripts[s["name"]] = script
             sc: Dict[str, Any] = {"command": script}
+            if s.get("bare"):
+                # a bare command name: it is looked up on the PATH of the *configured* environment; a program of the
+                # same name that sits on the host's own PATH must never be the one that runs
+                bindir = os.path.join(sub, f"bin_{i}")
+                os.makedirs(bindir, exist_ok=True)
+                script = os.path.join(bindir, f"vp-witness-{i}")
+                shutil.copy(scripts[s["name"]], script)
+                os.chmod(script, 0o755)
+                scripts[s["name"]] = script
+                os.makedirs(decoy_dir, exist_ok=True)
+                decoy = os.path.join(decoy_dir, f"vp-witness-{i}")
+                shutil.copy(script, decoy)
+                os.chmod(decoy, 0o755)
+                decoys[s["name"]] = decoy
+                sc["command"] = f"vp-witness-{i}"
+                s = dict(s, env=dict(s.get("env") or {}, PATH=bindir + os.pathsep + "/usr/bin:/bin"))
+                servers[i] = s
             if "args" in s:
                 sc["args"] = s["args"]
             if "env" in s:
@@ -257,7 +277,12 @@ def check(case: Dict[str, Any]) -> Outcome:
                 control_cache[key] = got[0]
             return control_cache[key]
 
-        host_env: List[Dict[str, Any]] = case.get("host_env", [{}, {}, {}])
+        host_env: List[Dict[str, Any]] = [dict(h) for h in case.get("host_env", [{}, {}, {}])]
+        if decoys:
+            for h in host_env:
+                h["PATH"] = decoy_dir + os.pathsep + os.environ.get("PATH", "")
+            out.classes = out.classes + ("bare-command-with-same-named-program-on-host-PATH",)
+            out.nontrivial = True
         for s in servers:
             if control(s) is None:
                 out.classes = out.classes + ("control-launch-failed",)
@@ -268,6 +293,11 @@ def check(case: Dict[str, Any]) -> Outcome:
             out.nontrivial = True
 
         def verify(entry: str, s: Dict[str, Any], recs: List[Dict[str, Any]]) -> bool:
+            if s["name"] in decoys:
+                wrong = _collect(decoys[s["name"]])
+                if wrong:
+                    out.fail(f"other-program-of-the-same-name-launched:{entry}", f"{s['name']}: the configured PATH resolves the command to {scripts[s['name']]}, but the one on the host's PATH ran ({len(wrong)} launch(es))")
+                    return False
             if len(recs) != 1:
                 sig = f"server-not-launched:{entry}" if not recs else f"server-launched-more-than-once:{entry}"
                 out.fail(sig, f"{s['name']}: {len(recs)} launches")
@@ -386,11 +416,12 @@ def check(case: Dict[str, Any]) -> Outcome:
 # --------------------------------------------------------------------------------------- generators
 
 _arg = st.one_of(
-    st.sampled_from(["", "a b", "--flag", "it's", 'say "hi"', "back\\slash", "é", "日本語", "\U0001F600", "a\tb", "-", "--x=y z", "$HOME", "*", "a\nb"]),
+    st.sampled_from(["", "a b", "--flag", "it's", 'say "hi"', "back\\slash", "é", "日本語", "\U0001F600", "a\tb", "-", "--x=y z", "$HOME", "*", "a\nb",
+                     "sqlite:///data/app.db", "//host/share", "/srv//data", "a // b", "http://x/y", "/* c */", "# hash", "a,}", "{\"k\": 1}"]),
     st.text(alphabet=st.characters(blacklist_characters="\x00", blacklist_categories=("Cs",)), max_size=8),
 )
 _envname = st.from_regex(r"VP_[A-Z0-9_]{0,6}", fullmatch=True)
-_envval = st.one_of(st.sampled_from(["", "a b", "k=v", "é=ü", "x\ty", "\U0001F600", "1"]), st.text(alphabet=st.characters(blacklist_characters="\x00", blacklist_categories=("Cs",)), max_size=8))
+_envval = st.one_of(st.sampled_from(["", "a b", "k=v", "é=ü", "x\ty", "\U0001F600", "1", "file:///tmp/x", "//share", "a//b", "/* x */"]), st.text(alphabet=st.characters(blacklist_characters="\x00", blacklist_categories=("Cs",)), max_size=8))
 _extra = st.dictionaries(st.sampled_from(["description", "disabled", "cwd_hint", "x-é"]), st.one_of(st.booleans(), st.text(max_size=5), st.none(), st.just({"k": [1]})), max_size=2)
 
 
@@ -412,6 +443,8 @@ def server(draw, i: int) -> Dict[str, Any]:
     elif tk == "str":
         s["timeout"] = draw(st.sampled_from(["5", "2.5", "1e1"]))
     s["extra"] = draw(_extra)
+    if draw(st.integers(0, 3)) == 0:
+        s["bare"] = True
     return s
 
 
